@@ -382,7 +382,7 @@ pub fn gen_blob(t: &mut Tape) -> BlobCase {
 }
 
 pub fn run(r: &mut Runner) {
-    r.rule = "part trees: generated DAGs x levels {0,1,7,u32::MAX}; non-trivial = tree has two distinct atoms of equal length and a pair used more than once. \
+    r.rule = "part trees: generated DAGs x levels {0,1,7,u32::MAX}; non-trivial = tree has two distinct atoms of equal length and a pair used more than once. part groups: lists / balanced trees of up to 1800 pairwise distinct atoms in 1..3 equal-length groups whose byte sizes sit around 256, 1024, 2048, 4096 and 9000 bytes (same oracle as trees). \
         part blobs: magic||body produced by an independent encoder that chooses table order, grouping, cons direction (1/-1), pair references and non-minimal varints, with structural tampering (counts, zero lengths, indices, missing/extra instructions) and byte mutation; \
         non-trivial = accepted blob (these differ from the serializer's own output by construction). part raw: mutated serializer output and random bodies."
         .into();
@@ -398,6 +398,60 @@ pub fn run(r: &mut Runner) {
         |t: &mut Tape| {
             let level = *t.pick(&[0u32, 1, 7, u32::MAX]);
             TreeCase { tree: gen_tree(t, &cfg), level }
+        },
+        test_tree,
+    );
+    // large groups of distinct equal-length atoms (atom-table groups whose byte size crosses every buffer size a decoder
+    // might use: hundreds of atoms, group sizes around multiples of 256 / 1024 / 4096 bytes), several groups per tree
+    let n = r.n(6_000, 120_000);
+    r.run_part(
+        "groups",
+        n,
+        40,
+        |t: &mut Tape| {
+            use crate::dag::Dag;
+            let mut d = Dag::new();
+            let mut items = Vec::new();
+            let mut serial = 0u32;
+            for _ in 0..1 + t.below(3) {
+                let len = match t.below(6) {
+                    0 => 1 + t.below_usize(4),
+                    1 => *t.pick(&[31usize, 32, 33, 48, 96]),
+                    _ => 1 + t.below_usize(130),
+                };
+                let target = *t.pick(&[200usize, 256, 1000, 1024, 1030, 2048, 4096, 5000, 9000]);
+                let count = match t.below(4) {
+                    0 => 1 + t.below_usize(12),
+                    1 => (target / len).max(1) + t.below_usize(3),
+                    2 => (target / len).max(2) - 1,
+                    _ => 1 + t.below_usize(400),
+                }
+                .min(600);
+                for _ in 0..count {
+                    serial += 1;
+                    let mut b = vec![0x55u8; len];
+                    for (k, x) in serial.to_be_bytes().iter().enumerate() {
+                        if k < len {
+                            b[len - 1 - k] = x ^ (0xa0 + k as u8);
+                        }
+                    }
+                    items.push(d.atom(&b));
+                }
+            }
+            if t.flip() {
+                d.list(&items);
+            } else {
+                // balanced-ish tree instead of a list
+                while items.len() > 1 {
+                    let mut next = Vec::new();
+                    for c in items.chunks(2) {
+                        next.push(if c.len() == 2 { d.pair(c[0], c[1]) } else { c[0] });
+                    }
+                    items = next;
+                }
+            }
+            let level = *t.pick(&[0u32, 1, u32::MAX]);
+            TreeCase { tree: d, level }
         },
         test_tree,
     );
